@@ -5,7 +5,8 @@ bounded instance PageCodecMC enumerates node shapes from abstract parameters
 and short Update / DropCache / Fetch sequences, and prints every explored
 Fetch transition with its action path and the expected register content.
 harness/cmd/codec builds the concrete nodes with the package's own cell
-operations, runs the path on a real fileStore (fresh fileStore = cold cache)
+operations (insertLeafCell, appendInternalCell, insertInternalCell, split,
+updateCell), runs the path on a real fileStore (fresh fileStore = cold cache)
 and reports the logical content stored and fetched; this module compares.
 Also, for every stored node: len(encode()) == 4096 and decode(encode(n)) == n.
 
@@ -22,7 +23,16 @@ import vlib
 ALL_SIZE_PATS = ["all0", "all1", "all399", "all400", "cyc", "rcyc", "last0", "first0"]
 ALL_DEL_PATS = ["none", "all", "first", "last", "alt"]
 
-# A*: one store, every shape; B*: sequences of stores over adjacent pages with a small shape set
+# "updated": leaves filled in ascending key order in which one cell (first / middle / last) was replaced through the real
+# btreeNode.updateCell by a value of another or the same length (UpdFrom = sizes before, cell sizes = sizes after)
+UPDATED_Q = dict(name="updated", Pages=[2], LeafCounts=[1, 2, 4, 9], IntCounts=[], SizeClasses=[0, 1, 399, 400], SmallN=2,
+                 SizePats=["all0", "all400", "cyc", "rcyc"], DelPats=["none", "alt"], PermPats=["id"], IntPerms=["append"],
+                 SibOpts=["LR"], LsnClasses=["4294967297"], KeyClasses=["small"], StaleOpts=[False, True],
+                 UpdFrom=[0, 1, 399, 400], MaxOps=3, MaxUpd=1)
+UPDATED_T = dict(UPDATED_Q, Pages=[1, 2], LeafCounts=[1, 2, 3, 4, 5, 8, 9], SizePats=ALL_SIZE_PATS, DelPats=ALL_DEL_PATS,
+                 SibOpts=["--", "LR"], KeyClasses=["small", "wide"])
+
+# "shapes": one store, every shape; "sequences": stores over adjacent pages with a small shape set
 MC = {
     "quick": [
         dict(name="shapes", Pages=[2], LeafCounts=[0, 1, 2, 4, 8, 9], IntCounts=[0, 1, 2, 145, 289, 290],
@@ -30,6 +40,7 @@ MC = {
              DelPats=["none", "all", "first", "alt"], PermPats=["id", "rev", "mid"], IntPerms=["append", "mid"],
              SibOpts=["--", "L-", "-R", "LR"], LsnClasses=["0", "1", "4294967297"], KeyClasses=["small", "wide"],
              StaleOpts=[False, True], MaxOps=3, MaxUpd=1),
+        UPDATED_Q,
         dict(name="sequences", Pages=[1, 2, 3], LeafCounts=[1, 9], IntCounts=[290], SizeClasses=[400], SmallN=1,
              SizePats=["cyc"], DelPats=["alt"], PermPats=["mid"], IntPerms=["append"], SibOpts=["LR", "--"],
              LsnClasses=["4294967297"], KeyClasses=["wide"], StaleOpts=[False], MaxOps=5, MaxUpd=3),
@@ -40,6 +51,7 @@ MC = {
              PermPats=["id", "rev", "mid"], IntPerms=["append", "mid"], SibOpts=["--", "L-", "-R", "LR"],
              LsnClasses=["0", "1", "4294967297", "18446744073709551615"], KeyClasses=["small", "wide"],
              StaleOpts=[False, True], MaxOps=3, MaxUpd=1),
+        UPDATED_T,
         dict(name="small-full", Pages=[1], LeafCounts=[3], IntCounts=[], SizeClasses=[0, 1, 399, 400], SmallN=3,
              SizePats=["cyc"], DelPats=["alt"], PermPats=["id", "rev", "mid"], IntPerms=["append"], SibOpts=["LR"],
              LsnClasses=["4294967297"], KeyClasses=["wide"], StaleOpts=[False, True], MaxOps=3, MaxUpd=1),
@@ -48,6 +60,9 @@ MC = {
              LsnClasses=["4294967297"], KeyClasses=["wide"], StaleOpts=[False], MaxOps=6, MaxUpd=3),
     ],
 }
+for _tier in MC.values():
+    for _c in _tier:
+        _c.setdefault("UpdFrom", [])
 RANDOM = {
     # (pages, events per trace, traces)
     "quick": [(3, 1500, 2), (40, 3000, 2)],
@@ -68,7 +83,7 @@ def tla_set(xs):
 def mc_cfg(c):
     lines = ["CONSTANTS"]
     for k in ("Pages", "LeafCounts", "IntCounts", "SizeClasses", "SizePats", "DelPats", "PermPats", "IntPerms", "SibOpts",
-              "LsnClasses", "KeyClasses", "StaleOpts"):
+              "LsnClasses", "KeyClasses", "StaleOpts", "UpdFrom"):
         lines.append("  %s = %s" % (k, tla_set(c[k])))
     for k in ("SmallN", "MaxOps", "MaxUpd"):
         lines.append("  %s = %d" % (k, c[k]))
@@ -83,8 +98,10 @@ def dkey(d):
     return json.dumps(d, sort_keys=True)
 
 
-def features_mismatch(content, d, page):
-    """Does the logical content have the abstract features of descriptor d? Returns a list of differences."""
+def features_mismatch(content, d, page, built=False):
+    """Does the logical content have the abstract features of descriptor d? Returns a list of differences.
+    built=True: the node is the one the harness built in memory (machinery sanity): value sizes are taken from the value
+    bytes, and an inconsistent valueSize field is not judged here - it is part of what was stored and shows at the fetch."""
     out = []
     if content.get("leaf") != (d["kind"] == "leaf"):
         out.append("kind: content leaf=%r, descriptor %s" % (content.get("leaf"), d["kind"]))
@@ -99,9 +116,10 @@ def features_mismatch(content, d, page):
         if content.get("hl") != d["sib"].startswith("L") or content.get("hr") != d["sib"].endswith("R"):
             out.append("sibling flags (%r,%r), descriptor %s" % (content.get("hl"), content.get("hr"), d["sib"]))
         cells = content.get("cells") or []
-        if [c[2] for c in cells] != [c["sz"] for c in d["cells"]]:
-            out.append("value sizes %r, descriptor %r" % ([c[2] for c in cells], [c["sz"] for c in d["cells"]]))
-        if [c[3] for c in cells] != [c[2] for c in cells]:
+        szi = 3 if built else 2
+        if [c[szi] for c in cells] != [c["sz"] for c in d["cells"]]:
+            out.append("value sizes %r, descriptor %r" % ([c[szi] for c in cells], [c["sz"] for c in d["cells"]]))
+        if not built and [c[3] for c in cells] != [c[2] for c in cells]:
             out.append("valueSize fields %r differ from value lengths %r" % ([c[2] for c in cells], [c[3] for c in cells]))
         if [c[1] for c in cells] != [c["del"] for c in d["cells"]]:
             out.append("tombstones %r, descriptor %r" % ([c[1] for c in cells], [c["del"] for c in d["cells"]]))
@@ -130,7 +148,7 @@ def judge(scn, res):
             if st is None:
                 mach.append("step %d: no stored content" % i)
                 return viol, mach, drift
-            fm = features_mismatch(st, d, s["p"])
+            fm = features_mismatch(st, d, s["p"], built=True)
             if fm:
                 mach.append("step %d: the node built by the harness is not the node TLC described: %s" % (i, "; ".join(fm)))
                 return viol, mach, drift
@@ -168,7 +186,7 @@ def judge(scn, res):
 
 
 def shape_class(d):
-    return "%s/n%d%s" % (d["kind"], d["n"], "/stale" if d["stale"] else "")
+    return "%s/n%d%s%s" % (d["kind"], d["n"], "/stale" if d["stale"] else "", "/updated" if d["upd"]["pos"] else "")
 
 
 def run(ctx):
@@ -180,7 +198,7 @@ def run(ctx):
                random_events=0, random_traces=0, random_shapes={}, vacuity={})
     pool = vlib.WorkerPool(ctx, binary, n=min(12, vlib.NCPU))
     seen = dict(kind=set(), leaf_n=set(), int_n=set(), sz=set(), dele=set(), sib=set(), lsn=set(), perm=set(), stale=set(),
-                keys=set(), fetch=set(), seq=set())
+                keys=set(), fetch=set(), seq=set(), upd=set())
     cold_shapes = set()
     mach_errors = []
     try:
@@ -249,6 +267,21 @@ def run(ctx):
                         seen["perm"].add("identity")
                     if d["insp"] == "mid":
                         seen["perm"].add("internal-mid")
+                    u = d["upd"]
+                    if u["pos"]:
+                        to = d["cells"][u["pos"] - 1]["sz"]
+                        seen["upd"].add("longer" if to > u["from"] else "shorter" if to < u["from"] else "same-length")
+                        if u["from"] == 0 and to > 0:
+                            seen["upd"].add("0->n")
+                        if u["from"] > 0 and to == 0:
+                            seen["upd"].add("n->0")
+                        seen["upd"].add("first" if u["pos"] == 1 else "last" if u["pos"] == d["n"] else "middle")
+                        if d["stale"]:
+                            seen["upd"].add("after-split")
+                        if d["cells"][u["pos"] - 1]["del"]:
+                            seen["upd"].add("tombstoned")
+                    elif d["kind"] == "leaf":
+                        seen["upd"].add("none")
                 last = scn["steps"][-1]
                 seen["fetch"].add("warm" if last["hit"] else "cold")
                 if not last["hit"] and last["node"]["n"] >= 1:
@@ -288,7 +321,8 @@ def run(ctx):
             want = dict(kind={"leaf", "internal"}, sz={0, 1, 399, 400}, dele={True, False}, sib={"--", "L-", "-R", "LR"},
                         stale={True, False}, keys={"small", "wide"}, fetch={"warm", "cold"},
                         perm={"identity", "non-identity", "internal-mid"}, seq={"fetch-after-store-elsewhere", "overwrite", "adjacent"},
-                        leaf_n={0, 1, 2, 8, 9}, int_n={0, 1, 2, 289, 290}, lsn={"0", "1", "4294967297"})
+                        leaf_n={0, 1, 2, 8, 9}, int_n={0, 1, 2, 289, 290}, lsn={"0", "1", "4294967297"},
+                        upd={"none", "longer", "shorter", "same-length", "0->n", "n->0", "first", "middle", "last", "after-split"})
             for k, w in want.items():
                 missing = w - seen[k]
                 if missing:
@@ -345,7 +379,7 @@ def run(ctx):
             fid = "c12-trace-%s" % ev.get("a")
             vlib.report_violation(ctx, dict(kind="codec-trace", driver_request=q, rejected_event=ev, event_index=pos, invariant=res.violated,
                                             contents=dump, finding_ids=[fid]), signature=fid, finding_ids=[fid])
-        for k in ("leaf-full", "leaf-split", "leaf-perm", "internal-full", "internal-split"):
+        for k in ("leaf-full", "leaf-split", "leaf-perm", "leaf-updated", "internal-full", "internal-split"):
             if not ctx.violations and cov["random_shapes"].get(k, 0) == 0:
                 raise vlib.Undecided("vacuous: the random workloads never stored a '%s' node" % k)
 
@@ -370,5 +404,6 @@ def run(ctx):
             "logical content = header fields (fileOffset, lastLSN, sibling flags and offsets, rightOffset) and the cells in "
             "offsets order (key, tombstone, valueSize, value bytes / key, child offset); freeSize and the physical slot order are not part of it",
             "values over 24 bytes and internal cell lists over 12 cells are compared by SHA-256 digests (full contents on re-run of a failing scenario)",
-            "in-scope shapes: any insertion order with every slot referenced, or ascending insertion order followed by a real split",
+            "in-scope shapes: any insertion order with every slot referenced, or ascending insertion order followed by a real split "
+            "and / or a value replaced through the real updateCell",
             "byte layout is not modelled; it is exercised through the real codec only"])
